@@ -676,4 +676,72 @@ theorem inferFuel_modelsTT (opts : IOpts) (hnfs : opts.nullForSlices = true) (st
   | fuel + 1 => inferStep_modelsTT opts hnfs st0 (inferFuel_inv opts fuel) (inferFuel_modelsTT opts hnfs st0 fuel)
 
 end Go
+/-! ## entries without subschemas are tree entries -/
+
+namespace EncJson
+open Go Spec
+
+theorem children_leaf {m : Node} (L : LeafSchema m) : m.children = [] := by
+  unfold Node.children Node.childFields
+  simp [L.defs, L.additionalItems, L.additionalProperties, L.allOf, L.anyOf, L.contains, L.contentSchema,
+    L.definitions, L.dependencySchemas, L.dependentSchemas, L.else_, L.if_, L.items, L.itemsArray, L.not, L.oneOf,
+    L.patternProperties, L.prefixItems, L.properties, L.propertyNames, L.then_, L.unevaluatedItems,
+    L.unevaluatedProperties, sortByKey]
+
+/-- an entry without subschemas (`EntryAccepts`, the hypothesis of `infer_sound_table_partial`) is a tree entry -/
+theorem entryAcceptsTree_of_leaf {st : Store} {sid : NodeId} {u : GoType} {an : Bool} (h : EntryAccepts st sid u an) :
+    EntryAcceptsTree st sid u an := by
+  obtain ⟨m, hm, L, hv, hnull⟩ := h
+  refine ⟨m, 1, hm, ?_, fun re v hv' => ?_, fun han => ⟨(hnull han).1, fun re => ?_⟩⟩
+  · simp only [treeAll, hm, children_leaf L, List.all_nil, Bool.and_true]
+    exact Iso.noRefs_iff.2 ⟨L.ref, L.dynamicRef⟩
+  · exact valid_iff_isSome.1 (Iso.valid_stable (valid_iff_isSome.2 (hv re v hv')) (by omega))
+  · have h0 : Valid (evalFuel (specEnvNoRefs #[tableNull true m] re) (0 + 1) [] 0 .null) :=
+      valid_iff_isSome.2 ((hnull han).2 re)
+    have L' := L.tableNull true
+    have ha := (leaf_valid_iff (st := #[tableNull true m]) (HasNode.of_get rfl) L' 0 [] .null).1 h0
+    exact valid_iff_isSome.1 ((leaf_valid_iff (st := st.push (tableNull true m)) (HasNode.of_get (get?_push_size _ _)) L'
+      (depth u) [] .null).2 ha)
+
+theorem entriesAcceptTree_of_leaves (opts : IOpts) (st : Store) :
+    (∀ (T : GoType) (an : Bool), EntriesAccept opts st an T → EntriesAcceptTree opts st an T) ∧
+    ∀ fs : List (String × String × GoType), EntriesAcceptFields opts st fs → EntriesAcceptTreeFields opts st fs := by
+  have key : ∀ n : Nat,
+      (∀ (T : GoType) (an : Bool), sizeOf T ≤ n → EntriesAccept opts st an T → EntriesAcceptTree opts st an T) ∧
+      ∀ fs : List (String × String × GoType), sizeOf fs ≤ n → EntriesAcceptFields opts st fs →
+        EntriesAcceptTreeFields opts st fs := by
+    intro n
+    induction n with
+    | zero =>
+      constructor
+      · intro T an hs; cases T <;> simp at hs
+      · intro fs hs; cases fs <;> simp at hs
+    | succ n ih =>
+      constructor
+      · intro T an hs h
+        cases T with
+        | basic k => simp only [EntriesAcceptTree]
+        | ref k => simp only [EntriesAcceptTree]
+        | ptr e => simp only [EntriesAccept] at h; simp only [EntriesAcceptTree]; exact ih.1 e _ (by simp at hs; omega) h
+        | slice e => simp only [EntriesAccept] at h; simp only [EntriesAcceptTree]; exact ih.1 e _ (by simp at hs; omega) h
+        | array k e => simp only [EntriesAccept] at h; simp only [EntriesAcceptTree]; exact ih.1 e _ (by simp at hs; omega) h
+        | map k e => simp only [EntriesAccept] at h; simp only [EntriesAcceptTree]; exact ih.1 e _ (by simp at hs; omega) h
+        | struct fs => simp only [EntriesAccept] at h; simp only [EntriesAcceptTree]; exact ih.2 fs (by simp at hs; omega) h
+        | named k u =>
+          simp only [EntriesAccept] at h
+          simp only [EntriesAcceptTree]
+          cases hl : Json.lookup k opts.schemas with
+          | some sid => rw [hl] at h; exact entryAcceptsTree_of_leaf h
+          | none => rw [hl] at h; exact ih.1 u _ (by simp at hs; omega) h
+      · intro fs hs h
+        cases fs with
+        | nil => simp only [EntriesAcceptTreeFields]
+        | cons f rest =>
+          obtain ⟨g, tag, ft⟩ := f
+          simp only [EntriesAcceptFields] at h
+          simp only [EntriesAcceptTreeFields]
+          refine ⟨h.1.imp id (ih.1 ft _ (by simp at hs; omega)), ih.2 rest (by simp at hs; omega) h.2⟩
+  exact ⟨fun T an => (key _).1 T an (Nat.le_refl _), fun fs => (key _).2 fs (Nat.le_refl _)⟩
+
+end EncJson
 end JSV
